@@ -4,7 +4,7 @@ from props.opt_common import *
 
 class C12(OptCheck):
     prop = "C12"
-    vfiles = ["Properties/Properties_C12.v"]
+    vfiles = ["Properties/Properties_C12.v", "Tie/Tie_C04.v"]
     corpus = "C12.txt"
     oracle_args = ("oracle", "C12")
     design_ref = "DESIGN.md section 6, C12"
